@@ -22,7 +22,7 @@ KEY = 'biprop-merge-stale-set'
 
 def run(ctx):
     ctx.prove(models=['Model/GraphLits.v', 'Model/C30Check.v', 'Model/C31Check.v'])
-    n = 200 if ctx.quick else 3000
+    n = 120 if ctx.quick else 3000
     res = gc.correspond(ctx, 'C31', 'partial', n, [gc.STALE_WITNESS])
     hist = {}
     distinct = set()
